@@ -342,7 +342,7 @@ def _decide(pid: str, tier: str, seed: int, reg: Any, own: list, results: dict, 
             v = {"unit": t, "obligation": o["name"], "cex": o["cex"], "kind": "deductive"}
             confirmed = None
             cex = o["cex"] or {}
-            if "inputs" in cex and t in reg.contracts:
+            if "inputs" in cex and t in reg.contracts and reg.contracts[t].opts.get("replay", True):
                 try:
                     kwargs = {k: rebuild(x) for k, x in cex["inputs"].items()}
                     rc = RuntimeContract(reg, reg.contracts[t])
